@@ -377,6 +377,10 @@ class Reader(object):
         elif self.typ == "LPAREN" and self.paren_is_declarator():
             self.adv()
             inner = self.declarator()
+            if self.typ == "LPAREN" and inner[1] is None and inner[2] is None:
+                # '( * ( params ) )': an abstract function declarator inside the parentheses - grammatical C++,
+                # not part of the documented grammar (same class as 'void ()')
+                raise RefReject("semantic:abstract-function", "abstract function declarator")
             self.need("RPAREN", "syntax:unbalanced")
         return (ops, name, inner)
 
